@@ -53,3 +53,14 @@ PROPS['C11'] = dict(
     assumptions=['each exported *IPDB method is one atomic step (gofacts: gf_ipdb_methods_locked)', 'the clock is non-decreasing'],
 )
 PROPS['C12']['spec_equal_tags'] = {1201, 1203}
+
+SERVER_RULE = ('sequential server histories under testing/synctest: 1-5 clients (no / short / RFC 4361 / hardware-type client identifiers, forged internal '
+               'identifiers, shared identifiers), reservations inside and outside the dynamic range, pools of 1-6 addresses at the edges of /23-/29 networks, '
+               'static_only; 3-32 packets per history mixing DISCOVER (with suggestions), the four REQUEST kinds, wrong server ids, unicast to other '
+               'destinations, other message types, non-UDP protocol, junk and truncated frames; gaps from {0,1s,hold-3s,hold+2s,lease/2,lease-3s,lease+2s,3*lease}; '
+               'ARP responders (foreign / own hardware address, delays 1-589 ms and beyond the probe window) on random pool addresses; '
+               'live-binding snapshot compared after every packet. Non-trivial = history with at least one packet; distinct by full case line.')
+SERVER_TRUSTED = ['lib/server/{run,netio,utils}.go and lib/server/replies are modelled by hand in coq/model/Server.v over the reference table of C11',
+                  'testing/synctest virtual clock; in-memory sockets (lib/rsocks/vnet_verif.go) instead of AF_PACKET; ARP responders simulated by the harness',
+                  'handlers run one at a time in these histories (the harness waits for quiescence); interleavings are covered by the theorems, not by the runs']
+PROPS['SRV'] = dict(tests=['TestServerHistories'], monitor_tags=set(), panic_is_violation=set(), rule=SERVER_RULE, trusted=SERVER_TRUSTED, timeout={'quick': 900, 'thorough': 14000})
